@@ -119,10 +119,12 @@ def k_assoc(run, case):
     a1, a2 = payload(rng, t1), payload(rng, t2)
     m1 = "se3" if rng.random() < .5 else "xyzq"
     m2 = "se3" if rng.random() < .5 else "xyzq"
-    tr1, tr2 = gen.make_evo(a1, m1, meta={"id": 1}), gen.make_evo(a2, m2, meta={"id": 2})
+    f1, f2 = gen.rand_flavour(rng), gen.rand_flavour(rng)
+    tr1, tr2 = gen.make_evo(a1, m1, meta={"id": 1}, flavour=f1), gen.make_evo(a2, m2, meta={"id": 2}, flavour=f2)
+    gen.age(rng, tr1), gen.age(rng, tr2)
     if rng.random() < .3:
         tr1.poses_se3, tr1.positions_xyz, tr1.orientations_quat_wxyz
-    exp1, exp2 = gen.read_views(gen.make_evo(a1, m1)), gen.read_views(gen.make_evo(a2, m2))
+    exp1, exp2 = gen.read_views(gen.make_evo(a1, m1, flavour=f1)), gen.read_views(gen.make_evo(a2, m2, flavour=f2))
     s1, s2 = contracts.field_snapshot(tr1), contracts.field_snapshot(tr2)
     use_default_offset = offset == 0.0 and rng.random() < .5
     if use_default_offset:
